@@ -347,12 +347,24 @@ func c11(r *mon.Run) {
 	// element only). Whatever a by-function keeps while it runs belongs to that one call.
 	outers := []string{"sort_by", "max_by", "min_by"}
 	inners := []func() *gen.Expr{
-		func() *gen.Expr { return gen.Chain(gen.Func("sort_by", gen.Field("m"), gen.ExpRef(gen.Field("k"))), gen.StIndex(0), gen.StField("k")) },
-		func() *gen.Expr { return gen.Chain(gen.Func("max_by", gen.Field("m"), gen.ExpRef(gen.Field("k"))), gen.StField("k")) },
-		func() *gen.Expr { return gen.Chain(gen.Func("min_by", gen.Field("m"), gen.ExpRef(gen.Field("k"))), gen.StField("k")) },
-		func() *gen.Expr { return gen.Chain(gen.Func("map", gen.ExpRef(gen.Field("k")), gen.Field("m")), gen.StIndex(-1)) },
-		func() *gen.Expr { return gen.Chain(gen.Func("sort", gen.Chain(gen.Field("m"), gen.StListStar(), gen.StField("k"))), gen.StIndex(0)) },
-		func() *gen.Expr { return gen.Func("max", gen.Chain(gen.Field("m"), gen.StListStar(), gen.StField("k"))) },
+		func() *gen.Expr {
+			return gen.Chain(gen.Func("sort_by", gen.Field("m"), gen.ExpRef(gen.Field("k"))), gen.StIndex(0), gen.StField("k"))
+		},
+		func() *gen.Expr {
+			return gen.Chain(gen.Func("max_by", gen.Field("m"), gen.ExpRef(gen.Field("k"))), gen.StField("k"))
+		},
+		func() *gen.Expr {
+			return gen.Chain(gen.Func("min_by", gen.Field("m"), gen.ExpRef(gen.Field("k"))), gen.StField("k"))
+		},
+		func() *gen.Expr {
+			return gen.Chain(gen.Func("map", gen.ExpRef(gen.Field("k")), gen.Field("m")), gen.StIndex(-1))
+		},
+		func() *gen.Expr {
+			return gen.Chain(gen.Func("sort", gen.Chain(gen.Field("m"), gen.StListStar(), gen.StField("k"))), gen.StIndex(0))
+		},
+		func() *gen.Expr {
+			return gen.Func("max", gen.Chain(gen.Field("m"), gen.StListStar(), gen.StField("k")))
+		},
 	}
 	nlens := []int{2, 3, 4, 5, 8, 20}
 	const nposs, nbads = 6, 4
